@@ -240,7 +240,9 @@ func genReq(r *rand.Rand, db *logq.DB, o logq.GenOpts, kind int) logq.Request {
 	}
 }
 
-var digits = regexp.MustCompile(`[0-9]+`)
+// what legitimately differs between the statements of the portions of one TraceQL request: the portion's
+// random filter and the trace ids carried over from earlier portions
+var portionVar = regexp.MustCompile(`cityHash64\(trace_id\) % [0-9]+\) == \([0-9]+\)|unhex\('[0-9a-fA-F]*'\)(, ?unhex\('[0-9a-fA-F]*'\))*`)
 
 func Child(c *run.Ctx, name string) {
 	var cfg childCfg
@@ -352,11 +354,11 @@ func Child(c *run.Ctx, name string) {
 				}
 				if complexity > 0 {
 					c.Floor("TraceQL requests handled by the multi-portion processor", 0, 1)
-					// statements of the portions of one request: same shape apart from numbers
+					// statements of the portions of one request: the same text apart from the random filter and carried trace ids
 					byShape := map[string]int{}
 					var shapes []string
 					for _, st := range s1[1:] {
-						sh := digits.ReplaceAllString(st, "#")
+						sh := portionVar.ReplaceAllString(st, "#")
 						if byShape[sh] == 0 {
 							shapes = append(shapes, sh)
 						}
@@ -369,7 +371,7 @@ func Child(c *run.Ctx, name string) {
 					}
 					for _, sh := range shapes {
 						if byShape[sh] != maxN && maxN > 1 && strings.Contains(sh, "tempo_traces_attrs_gin") {
-							c.Violation("traceql/portion-statement-changes", fmt.Sprintf("TraceQL %s processed in portions: the statement of one portion differs in structure from the others (%d shapes among %d statements), e.g. %s", q, len(shapes), len(s1)-1, clip(sh, 300)),
+							c.Violation("traceql/portion-statement-changes", fmt.Sprintf("TraceQL %s processed in portions: the statement of one portion differs from the others in more than its random filter (%d shapes among %d statements), e.g. %s", q, len(shapes), len(s1)-1, clip(sh, 300)),
 								map[string]any{"q": q, "complexity": complexity, "sql": s1})
 							break
 						}
@@ -441,6 +443,8 @@ func clip(s string, n int) string {
 var traceQueries = []string{
 	`{.a="b"}`, `{span.a="b" && resource.c!="d" || name=~"x.*"}`, `{.n > 5 && duration > 1s}`, `{.a="b"} | count() > 2`, `{.a="b"} | avg(duration) > 1ms`, `{.a="b"} | max(.n) >= 3`,
 	`{.a="b"} && {.c="d"}`, `{.a="b"} || {.c="d"}`, `{.a="b" && .a="b"}`, `{.http.status=500 || .http.status=503} | count() > 1`, `{name="GET /x" && .svc=~"a|b"} | min(.n) < 4`,
+	// every unit the grammar takes for a duration
+	`{.a="b"} | avg(duration) > 1d`, `{.a="b"} | max(duration) >= 2h`, `{.a="b"} | min(duration) < 1.5s`, `{.a="b"} | sum(duration) > 3m`, `{duration > 1d && .a="b"}`, `{.a="b"} | avg(duration) > 10us`, `{.a="b"} | avg(duration) > 7ns`,
 }
 
 type profReq struct{ path, body string }
